@@ -1224,8 +1224,15 @@ func (e *env) exchangeP(o Op, subj presented, actor *presented, h int) {
 		}
 	}
 	e.res.Label(fmt.Sprintf("exchange->%v", ok))
-	if ok && resp.Str("access_token") != "" && subj.tok != nil {
-		if g := e.adopt(resp, cl.ID, subj.tok.subject, "exchange", h); g != nil {
+	adoptSub := ""
+	switch {
+	case subj.tok != nil:
+		adoptSub = subj.tok.subject
+	case subj.id && subj.base != nil: // ID token subject: the token issued for it names the ID token's subject
+		adoptSub = subj.base.subject
+	}
+	if ok && resp.Str("access_token") != "" && adoptSub != "" {
+		if g := e.adopt(resp, cl.ID, adoptSub, "exchange", h); g != nil {
 			e.res.Label("issued-by-exchange:" + g.access.kind)
 		}
 	}
